@@ -12,6 +12,7 @@ from __future__ import annotations
 import json
 import random
 
+import time
 import z3
 
 from gsv import colsym, common, gt, grouping_checks as GC, xh
@@ -176,7 +177,103 @@ def confirmed(f, kw_full, kw_other, m, rows, what):
     return False
 
 
+def _real_term(v):
+    t, ty = R.lift(v)
+    return z3.ToReal(t) if t.sort().kind() == z3.Z3_INT_SORT else t
+
+
+def fp_separable(ck, f, label, pre, full, alone, kw_full, kw_alone, na, foreign, key, int_syms=(), domain=()):
+    """The same claim bit for bit (gsv.fpcheck): only asked where the term of a row of A mentions a value of B at all."""
+    from .. import fpcheck
+    import numpy
+    pairs = []
+    for i in range(na):
+        try:
+            a, b = _real_term(full.e[i]), _real_term(alone.e[i])
+        except R.Unsupported:
+            continue
+        if a.sort().kind() != z3.Z3_REAL_SORT or b.sort().kind() != z3.Z3_REAL_SORT:
+            continue
+        if fpcheck.real_consts(a) & foreign:
+            pairs.append((a, b))
+    name = f"separable bit for bit (Float64 RNE) {label} A={na}"
+    if not pairs:
+        ck.add_discharged(name)   # no value of B occurs in the terms of A's rows: nothing to round
+        return
+    # identifiers / pointers are enumerated (every assignment over `domain` that satisfies the precondition); the
+    # values stay symbolic Float64: with concrete ids the selection structure folds away and the query is pure FP
+    import itertools
+    ivars = list(int_syms)
+    tr = fpcheck.Translator()
+    try:
+        fpairs = [(tr.tr(a), tr.tr(b)) for a, b in pairs]
+    except fpcheck.NoFP as e:
+        ck.add_inconclusive(f"{name}: {e}")
+        return
+    seen, value = set(), None
+    t0 = time.time()
+    for combo in itertools.product(domain, repeat=len(ivars)):
+        sub = [(v, z3.IntVal(c)) for v, c in zip(ivars, combo)]
+        if not all(z3.is_true(z3.simplify(z3.substitute(p, *sub))) for p in pre):
+            continue
+        ps = []
+        for a, b in fpairs:
+            # Float64 terms: z3's simplifier folds the selection structure but keeps every rounding operation
+            a2, b2 = z3.simplify(z3.substitute(a, *sub)), z3.simplify(z3.substitute(b, *sub))
+            if fpcheck.fp_consts(a2) & foreign:
+                ps.append((a2, b2))
+        sig = str(ps)
+        if not ps or sig in seen:
+            continue
+        seen.add(sig)
+        ck.obligations += 1
+        r, fval, secs = fpcheck.differs_fp(tr, ps, 30)
+        ck.queries += 1
+        ck.solver_time += secs
+        if r == "unsat":
+            ck.discharged += 1
+            continue
+        if r != "sat":
+            ck.inconclusive.append(f"{name} ids={combo}: {r}")
+            continue
+        ids = {v.decl().name(): c for v, c in zip(ivars, combo)}
+
+        def value(t, fval=fval, ids=ids):
+            if z3.is_const(t) and t.decl().kind() == z3.Z3_OP_UNINTERPRETED:
+                return fval(t.decl().name()) if t.sort().kind() == z3.Z3_REAL_SORT else ids.get(t.decl().name(), 0)
+            return R.z3_to_py(z3.simplify(t))
+        break
+    if not seen:
+        ck.add_discharged(name)
+    ck.bounds["fp_separability"] = "Float64 round-to-nearest re-check of A's rows where their term mentions a value of B: ids/pointers enumerated over a small domain, values symbolic Float64, finite, zero or 0.01 <= |v| <= 1e9"
+    if value is None:
+        return
+
+    def conc(v):
+        if isinstance(v, SymArray):
+            return numpy.array([value(R.lift(x)[0]) for x in v.e], dtype=v.dtype)
+        return v
+    cf = {k: conc(v) for k, v in kw_full.items()}
+    ca = {k: conc(v) for k, v in kw_alone.items()}
+    try:
+        x = numpy.asarray(f(**cf), dtype=float)[:na]
+        y = numpy.asarray(f(**ca), dtype=float)[:na]
+    except Exception as e:   # noqa: BLE001
+        common.spurious("C02", f"{name}: replay raises {type(e).__name__}: {e}"[:160])
+        ck.inconclusive.append(f"{name}: Float64 model does not replay")
+        return
+    if all((p == q) or (p != p and q != q) for p, q in zip(x.tolist(), y.tolist())):
+        # the model's summation order is not the library's: a Float64 model that does not reproduce decides nothing
+        common.spurious("C02", f"{name}: Float64 model does not reproduce on the real function")
+        ck.inconclusive.append(f"{name}: Float64 model does not reproduce (summation order of the model)")
+        return
+    ck.violation(key, f"{label}: rows of A change bit for bit when unrelated rows B are appended (a value of B takes part in the floating-point "
+                      f"arithmetic of A's result): {({k: (v.tolist() if hasattr(v, 'tolist') else v) for k, v in cf.items()})} gives {x.tolist()} for A, A alone gives {y.tolist()}",
+                 {"kind": "col", "label": label})
+
+
 def column_code(ck, na, nb):
+    import numpy
     import _gettsim.aggregation_numpy as A
     from _gettsim.shared import join_numpy
     n = na + nb
@@ -204,6 +301,9 @@ def column_code(ck, na, nb):
         ck.nontrivial.add(("sep", label, na, nb))
         if r == "sat" and confirmed(f, kw_full, kw_alone, m, na, f"separable {label}") is not False:
             ck.violation(["separable", label], f"{label}: rows of A change when unrelated rows B are appended: {({k: _conc(v, m).tolist() for k, v in kw_full.items()})}", {"kind": "col", "label": label})
+        if r == "unsat" and col is not None and numpy.dtype(col.dtype).kind == "f":
+            fp_separable(ck, f, label, pre, full, alone, kw_full, kw_alone, na, {f"v{j}" for j in range(na, n)}, ["separable-fp", label],
+                         int_syms=[g.t for g in gid.e], domain=range(n + 1))
         bad2 = z3.Or([z3.Not(R.values_equal(full.e[i], rel.e[i])) for i in range(n)])
         r, m = ck.oblige(f"relabel {label} N={n}", [g.t >= 0 for g in gid.e] + iso + [bad2], 60,
                          sample={"function": label, "claim": "F(sigma.ids) == F(ids) for every injective relabelling sigma", "rows": n})
@@ -223,6 +323,9 @@ def column_code(ck, na, nb):
         bad = z3.Or([z3.Not(R.values_equal(full.e[i], alone.e[i])) for i in range(na)])
         r, m = ck.oblige(f"separable sum_by_p_id A={na} B={nb}", valid + [bad], 60, sample={"function": "sum_by_p_id", "claim": "F(A++B)|A == F(A)"})
         ck.nontrivial.add(("sep", "sum_by_p_id", na, nb))
+        if r == "unsat":
+            fp_separable(ck, A.sum_by_p_id, "sum_by_p_id", valid, full, alone, kf, ka, na, {f"v{j}" for j in range(na, n)}, ["separable-fp", "sum_by_p_id"],
+                         int_syms=[q.t for q in ptr.e], domain=sorted({-1, *[int(x) for x in labs]}))
         if r == "sat" and confirmed(A.sum_by_p_id, kf, ka, m, na, "separable sum_by_p_id") is not False:
             ck.violation(["separable", "sum_by_p_id"], f"sum_by_p_id: rows of A change when unrelated rows B are appended: {({k: _conc(v, m).tolist() for k, v in kf.items()})}", {"kind": "col", "label": "sum_by_p_id"})
         fk, pk, tg = c11.ints("fk", n), c11.ints("pk", n), c11.reals("t", n)
